@@ -10,8 +10,16 @@ import (
 const nMergeVals = 13
 
 // mergeVal: the focus value set V of DESIGN.md §4.2 (null at member, element and member-of-object-in-array positions, type changes, nesting).
+// mergeNum: one symbolic digit, or (litnums=1) a number literal that must survive verbatim: dEdd, 1e400, d.d
+func mergeNum(name string, k int) *JV {
+	if vx.ParamOr("litnums", 0) == 1 {
+		return litNum(name+".", []int{5, 3, 0}[k%3])
+	}
+	return symNum(name)
+}
+
 func mergeVal(i int, p string) *JV {
-	n := func(k int) *JV { return symNum(p + "n" + itoa(k)) }
+	n := func(k int) *JV { return mergeNum(p+"n"+itoa(k), k) }
 	switch i {
 	case 0:
 		return jNull()
@@ -48,7 +56,7 @@ const nDocVals = 7
 
 // docVal: the document-side focus set W.
 func docVal(i int, p string) *JV {
-	n := func(k int) *JV { return symNum(p + "n" + itoa(k)) }
+	n := func(k int) *JV { return mergeNum(p+"n"+itoa(k), k) }
 	switch i {
 	case 0:
 		return n(0)
@@ -200,6 +208,10 @@ func H_Merge() {
 	var err error
 	panicked := vx.CatchPanic(func() { out, err = jsonpatch.MergePatch(dB, pB) })
 	vx.Assert(!panicked, "C04/merge-no-panic")
+	vx.Assert(!panicked, "C02/merge-returns")
+	vx.Assert(!panicked, "C19/merge-returns")
+	vx.Assert(!panicked, "C15/merge-returns")
+	vx.Assert(!panicked, "C05/merge-returns")
 	if panicked {
 		vx.Note("panic", []byte(vx.PanicMsg()))
 		return
@@ -279,6 +291,9 @@ func H_MergeMerge() {
 	var err error
 	panicked := vx.CatchPanic(func() { comb, err = jsonpatch.MergeMergePatches(p1B, p2B) })
 	vx.Assert(!panicked, "C04/mergemerge-no-panic")
+	vx.Assert(!panicked, "C07/mergemerge-returns")
+	vx.Assert(!panicked, "C19/mergemerge-returns")
+	vx.Assert(!panicked, "C15/mergemerge-returns")
 	if panicked {
 		vx.Note("panic", []byte(vx.PanicMsg()))
 		return
@@ -312,6 +327,8 @@ func H_MergeMerge() {
 	var out []byte
 	panicked = vx.CatchPanic(func() { out, err = jsonpatch.MergePatch(dB, comb) })
 	vx.Assert(!panicked, "C04/merge-no-panic")
+	vx.Assert(!panicked, "C02/merge-returns")
+	vx.Assert(!panicked, "C19/merge-returns")
 	if panicked || err != nil {
 		vx.Assert(err == nil, "C07/library-merge-succeeds")
 		return
@@ -451,6 +468,9 @@ func H_Create() {
 	var err error
 	panicked := vx.CatchPanic(func() { pB, err = jsonpatch.CreateMergePatch(aB, bB) })
 	vx.Assert(!panicked, "C04/create-no-panic")
+	vx.Assert(!panicked, "C03/create-returns")
+	vx.Assert(!panicked, "C19/create-returns")
+	vx.Assert(!panicked, "C15/create-returns")
 	if panicked {
 		vx.Note("panic", []byte(vx.PanicMsg()))
 		return
@@ -491,6 +511,9 @@ func H_CreateArr() {
 	var err error
 	panicked := vx.CatchPanic(func() { pB, err = jsonpatch.CreateMergePatch(aB, bB) })
 	vx.Assert(!panicked, "C04/create-no-panic")
+	vx.Assert(!panicked, "C03/create-returns")
+	vx.Assert(!panicked, "C19/create-returns")
+	vx.Assert(!panicked, "C15/create-returns")
 	if panicked {
 		vx.Note("panic", []byte(vx.PanicMsg()))
 		return
@@ -546,6 +569,9 @@ func H_CreateReject() {
 	var err error
 	panicked := vx.CatchPanic(func() { _, err = jsonpatch.CreateMergePatch(aB, bB) })
 	vx.Assert(!panicked, "C04/create-no-panic")
+	vx.Assert(!panicked, "C03/create-returns")
+	vx.Assert(!panicked, "C19/create-returns")
+	vx.Assert(!panicked, "C15/create-returns")
 	if panicked {
 		vx.Note("panic", []byte(vx.PanicMsg()))
 		return
